@@ -330,6 +330,10 @@ func (w *World) pureContract(pkgPath, name string) *Contract {
 			if c := try(imp.Path(), rest); c != nil {
 				return c
 			}
+			// contract written under the fully qualified name of an imported (not loaded) package
+			if c, ok := w.Contracts[imp.Path()+"."+rest]; ok && c.Pure {
+				return c
+			}
 		}
 		for path := range w.Pkgs {
 			if path == q || strings.HasSuffix(path, "/"+q) {
